@@ -350,6 +350,13 @@ class FakeSocket:
             k.log("fault", self.cid, op, n, "FIN")
             k.progress += 1
             f = None
+        elif f == -3:
+            # the peer's FIN arrives now; this call itself succeeds
+            self.in_fin = True
+            k.probe("fault:" + op + ":FIN-arrives")
+            k.log("fault", self.cid, op, n, "FIN-arrives")
+            k.progress += 1
+            f = None
         if f is not None:
             k.probe("fault:" + op + ":" + errno.errorcode.get(f, str(f)))
             k.log("fault", self.cid, op, n, errno.errorcode.get(f, str(f)))
